@@ -635,6 +635,7 @@ struct EngineOptions {
     bool hasLabelSets = false;
     bool exactWeights = true;
     bool pairValues = false; // C16: label / weight / multiplicity is a function of the pair
+    bool bigMult = false;    // C16 multigraphs: per-pair multiplicities of several 10^8
     size_t maxN = 12;
 };
 
@@ -763,6 +764,8 @@ struct Engine {
                 x = 1 + (kk.first * 5 + kk.second * 3) % 7;
                 w = x / 8.0;
                 dfltOverload = false;
+                if (T::fam == 'M' && opt.bigMult)
+                    x *= 600000000LL; // <= 4.2e9 < 2^32: each copy fits, a few copies together do not fit 32 bits
             }
             if constexpr (T::fam == 'L') {
                 x = ((x % LABEL_K) + LABEL_K) % LABEL_K;
@@ -775,6 +778,14 @@ struct Engine {
                     x = -x;
             }
             const MVal *cur = m.find(i, j);
+            if (T::fam == 'M' && !force && cur && cur->k + x > 4294967295LL) {
+                // EdgeMultiplicity is a 32-bit unsigned: one pair cannot hold more (wrap-around is not the property)
+                skipped = true;
+                facts.tag("skipped_multiplicity_overflow");
+                return "";
+            }
+            if (T::fam == 'M' && x > 2147483647LL)
+                facts.tag("huge_multiplicity");
             facts.kinds.insert(force ? "add_forced" : "add");
             // real call
             if constexpr (T::fam == 'L') {
@@ -864,6 +875,15 @@ struct Engine {
                         x = 1;
                     if (x < 0)
                         x = -x;
+                    {
+                        const MVal *c1 = m.find(i, j), *c2 = m.find(j, i);
+                        long long worst = std::max(c1 ? c1->k : 0, c2 ? c2->k : 0) + (i == j ? 2 * x : x);
+                        if (worst > 4294967295LL) {
+                            skipped = true;
+                            facts.tag("skipped_multiplicity_overflow");
+                            return "";
+                        }
+                    }
                     if (k == "recip1") {
                         tr("addReciprocalEdge(" + ps(i, j) + ")");
                         call([&] { g.addReciprocalEdge(i, j); });
